@@ -10,7 +10,8 @@ wg.Add / Done / Wait, select cases and the nil-ing of closed inputs, close, retu
 Which LTS models which skeleton:
   deriveFmapC, deriveFmap            K/FmapChan   (deriveFmap: the stage-1 forwarder of K/Pipeline)
   deriveDupB, deriveDupR             K/Dup
-  deriveJoinCC, deriveJoinCCb        K/JoinWG, chanForm = true   (`wait.Add 1` precedes the inner `go`)
+  deriveJoinCC, deriveJoinCCb        K/JoinWG, chanForm = true   (`wait.Add 1` precedes the inner `go`; `if listening[c] { continue }`
+                                     / `listening[c] = true` before it: one forwarder per distinct channel — `Cfg.seen`, `take`)
   deriveJoinSC, deriveJoinSCb        K/JoinWG, chanForm = false
   deriveJoinV2, V3, V5, V6           K/JoinSelect with n = 2, 3, 5, 6 (one select case per channel argument)
   derivePipelineP                    K/Pipeline   (= deriveJoinCC ∘ deriveFmap)
@@ -44,13 +45,13 @@ def expectedSkeletons : List (String × String) := [
   ("deriveFmapC",
    "(func (f in) (def (out) (make-chan (cap in))) (go (range-chan (a) in (def (b) (f a)) (send out b)) (close out)) (return out))"),
   ("deriveJoinCC",
-   "(func (in) (def (out) (make-chan 0)) (go (def (wait) (lit sync.WaitGroup)) (range-chan (c) in (wait.Add 1) (def (res) c) (go (range-chan (r) res (send out r)) (wait.Done))) (wait.Wait) (close out)) (return out))"),
+   "(func (in) (def (out) (make-chan 0)) (go (def (wait) (lit sync.WaitGroup)) (def (listening) (make-other)) (range-chan (c) in (if (index listening c) (then (continue))) (set ((index listening c)) true) (wait.Add 1) (def (res) c) (go (range-chan (r) res (send out r)) (wait.Done))) (wait.Wait) (close out)) (return out))"),
   ("deriveJoinCCb",
-   "(func (in) (def (out) (make-chan 0)) (go (def (wait) (lit sync.WaitGroup)) (range-chan (c) in (wait.Add 1) (def (res) c) (go (range-chan (r) res (send out r)) (wait.Done))) (wait.Wait) (close out)) (return out))"),
+   "(func (in) (def (out) (make-chan 0)) (go (def (wait) (lit sync.WaitGroup)) (def (listening) (make-other)) (range-chan (c) in (if (index listening c) (then (continue))) (set ((index listening c)) true) (wait.Add 1) (def (res) c) (go (range-chan (r) res (send out r)) (wait.Done))) (wait.Wait) (close out)) (return out))"),
   ("deriveJoinSC",
-   "(func (in) (def (out) (make-chan 0)) (go (def (wait) (lit sync.WaitGroup)) (range-slice (_ c) in (wait.Add 1) (def (res) c) (go (range-chan (r) res (send out r)) (wait.Done))) (wait.Wait) (close out)) (return out))"),
+   "(func (in) (def (out) (make-chan 0)) (go (def (wait) (lit sync.WaitGroup)) (def (listening) (make-other (len in))) (range-slice (_ c) in (if (index listening c) (then (continue))) (set ((index listening c)) true) (wait.Add 1) (def (res) c) (go (range-chan (r) res (send out r)) (wait.Done))) (wait.Wait) (close out)) (return out))"),
   ("deriveJoinSCb",
-   "(func (in) (def (out) (make-chan 0)) (go (def (wait) (lit sync.WaitGroup)) (range-slice (_ c) in (wait.Add 1) (def (res) c) (go (range-chan (r) res (send out r)) (wait.Done))) (wait.Wait) (close out)) (return out))"),
+   "(func (in) (def (out) (make-chan 0)) (go (def (wait) (lit sync.WaitGroup)) (def (listening) (make-other (len in))) (range-slice (_ c) in (if (index listening c) (then (continue))) (set ((index listening c)) true) (wait.Add 1) (def (res) c) (go (range-chan (r) res (send out r)) (wait.Done))) (wait.Wait) (close out)) (return out))"),
   ("deriveJoinV2",
    "(func (c0 c1) (def (out) (make-chan 0)) (go (for () ((|| (!= c0 nil) (!= c1 nil))) () (select (case (def (v0 ok0) (recv c0)) (if (! ok0) (then (set (c0) nil)) (else (send out v0)))) (case (def (v1 ok1) (recv c1)) (if (! ok1) (then (set (c1) nil)) (else (send out v1)))))) (close out)) (return out))"),
   ("deriveJoinV3",
